@@ -71,3 +71,11 @@ Theorem C08_model_satisfies_oracle : forall sc,
   oracle_names sc (run_case sc) = true.
 Proof. exact oracle_names_model. Qed.
 Print Assumptions C08_model_satisfies_oracle.
+
+(* every ParameterDescription of every connection announces exactly the declared parameter types (mod 2^32, as the
+   wire carries them) of a configured statement: nothing a client put into a Parse message, on this or any other
+   connection, shows up in it *)
+Require Import Spec.OracleFactsRows.
+Theorem C08_connection_paramdescs : forall sc, Forall (paramdesc_from sc) (Oracles.outs (run_case sc)).
+Proof. exact paramdescs_come_from_statements. Qed.
+Print Assumptions C08_connection_paramdescs.
